@@ -480,6 +480,58 @@ def routing(run, tu):
     return n
 
 
+CHECKING = {'PyLong_AsLongLong', 'PyLong_AsLong', 'PyLong_AsSsize_t', '_my_PyLong_AsLongLong'}
+MASKING = {'PyLong_AsUnsignedLongLongMask', 'PyLong_AsUnsignedLongMask', '_PyLong_AsInt', 'PyLong_AsLongLongAndOverflow',
+           'PyLong_AsLongAndOverflow', 'PyLong_AsUnsignedLongLong', 'PyLong_AsUnsignedLong', '_my_PyLong_AsUnsignedLongLong'}
+
+
+def o5(run, tu):
+    """the value tested against fmin/fmax comes from a conversion that itself rejects what does not fit 64 bits;
+    a masking conversion would reduce a huge int modulo 2**64 *before* the range test"""
+    fn = 'convert_from_object_bitfield'
+    f = tu.func(fn)
+    defs = []
+    for a in cx.assignments(f):
+        if cx.lhs_text(a[0]) == 'value' and a[2] in ('=', 'init'):
+            defs.append(a)
+    run.need(len(defs) >= 1, '%s: `value` is never assigned' % fn)
+    for a in defs:
+        calls = [cx.callee_name(c) for c in cx.calls_in(a[1])]
+        txt = cx.render(a[1], keep_casts=True)
+        if not calls:
+            raise AnalysisError('%s: `value = %s` is not a conversion call this rule knows' % (fn, txt))
+        bad = [c for c in calls if c in MASKING]
+        unknown = [c for c in calls if c not in MASKING and c not in CHECKING]
+        if unknown and not bad:
+            raise AnalysisError('%s: conversion %s not classified as range-checking or masking' % (fn, unknown))
+        run.ob('O5/range-checking-conversion-before-the-range-test', fn, 'value = %s' % txt, not bad, tu.where(a[3]),
+               '%s reduces or re-interprets an out-of-range int instead of failing: values beyond 64 bits reach the fmin/fmax test wrapped' % bad if bad else 'the conversion raises OverflowError for ints that do not fit')
+
+
+def union_reset(run, tu):
+    """in a union every member is laid out from byte 0, bit 0: with is_union fixed to true, constant
+    propagation must find byteoffset == 0 and bitoffset == 0 where the placement of a field starts"""
+    F = 'b_complete_struct_or_union_lock_held'
+    g = cfg_of(tu, F)
+    conds = [n for n in g.nodes if n.kind == 'cond' and cx.render(n.ast).replace(' ', '') in ('is_union', 'is_union!=0')]
+    resets = []
+    for n in conds:
+        tsucc = [t for t, l in n.succ if l == 'T']
+        fsucc = [t for t, l in n.succ if l == 'F']
+        region = g.reach(tsucc, avoid=set(fsucc))
+        if any(g.nodes[i].ast is not None and any(lv in ('byteoffset', 'bitoffset') for lv, _x in cx.writes(g.nodes[i].ast)) for i in region):
+            resets.append((n, fsucc))
+    run.need(len(resets) == 1, '%s: expected one `if (is_union)` resetting the running offsets, found %d' % (F, len(resets)))
+    n, fsucc = resets[0]
+    env = {'is_union': Con(1, 32, True)}
+    it = absint.Interp(g, env, {}, const_vars=set(env)).run()
+    st = it.in_state.get(fsucc[0]) or {}
+    for var in ('byteoffset', 'bitoffset'):
+        v = st.get(var)
+        run.ob('L/union-members-start-at-offset-zero', F, 'is_union -> %s == 0 when a member is placed' % var,
+               isinstance(v, Con) and v.v == 0, tu.where(n.ast), 'constant propagation with is_union != 0 gives %s = %r after the reset' % (var, v))
+
+
 def check(run):
     run.explanation = (
         'Sparse conditional constant propagation with a known-bits domain over the CFGs of the two bit-field '
@@ -494,6 +546,8 @@ def check(run):
     lattice = derive_lattice(run, tu)
     run.need(len(lattice) >= 100, 'derived lattice suspiciously small: %d points' % len(lattice))
     GOOD.clear()
+    o5(run, tu)
+    union_reset(run, tu)
     points, rc, wc = analyse_accessors(run, tu, lattice, thorough)
     for (rule, fn, construct), cnt in sorted(GOOD.items()):
         # a closed form that failed at some point is reported above; report ok only if it never failed
@@ -506,6 +560,7 @@ def check(run):
     run.min_instances('O2/closed-form', 5)
     run.min_instances('O3', 2)
     run.min_instances('O4', 5)
+    run.min_instances('O5', 1)
     run.min_instances('L', 6)
     run.min_instances('R', 3)
     run.assume('LP64 little-endian target (sizes of C types as in this sandbox); signed overflow wraps (-fno-strict-overflow, as CPython builds extensions)')
